@@ -310,10 +310,22 @@ def execute(plan: Dict[str, Any]) -> Dict[str, Any]:
                 shape = (m,)
                 if op.get("shape2d") and m % 2 == 0 and m >= 4:
                     shape = (2, m // 2)
+                xin = xt[:m].reshape(shape)
+                layout = op["iseed"] % 4
+                if layout == 1 and len(shape) == 2:
+                    # a non-contiguous (transposed) view holding the same elements in the same
+                    # logical order
+                    xin = xin.t().contiguous().t()
+                    probe("noncontiguous_inputs")
+                elif layout == 2 and m >= 8 and m % 4 == 0:
+                    shape = (2, 2, m // 4)
+                    xin = xt[:m].reshape(shape)
+                    probe("rank3_inputs")
+                x_before = xin.clone()
                 seam.keyed = r
                 seam.requests.clear()
                 try:
-                    out = fmt.quantise(xt[:m].reshape(shape)).reshape(-1)
+                    out = fmt.quantise(xin).reshape(-1)
                 except SeamShape as e:
                     raise Violation("independent_draws", "draw_shape_differs_from_input",
                                     f"input shape {shape}, random request shape {e.args[0]}")
